@@ -824,6 +824,247 @@ def check_C14(res):
     finish_codec(res)
 
 
+# ================================================================================================ monitors
+def gen_useq(rng, maxlen):
+    ops = ['new', 'sdlcs:%d' % rng.randrange(1, 65)]
+    n = rng.randrange(3, maxlen + 1)
+    tot = 0
+    for _ in range(n):
+        k = rng.random()
+        if k < 0.30:
+            ln = rng.choice([0, 1, 2, 3, 5, 8, 13, 21, 40, 64, 65])
+            ops.append('w:' + bytes(rng.randrange(256) for _ in range(ln)).hex())
+            tot += ln
+        elif k < 0.40:
+            ln = rng.choice([0, 1, 4, 7, 16, 33])
+            ops.append('wc:%d:%s' % (ln, bytes(rng.randrange(256) for _ in range(ln)).hex()))
+            tot += ln
+        elif k < 0.65:
+            ops.append('r:%d' % rng.choice([0, 1, 2, 3, 4, 7, 8, 16, 31, 64, 100]))
+        elif k < 0.78:
+            ops.append('sk:%d' % rng.choice([-20, -8, -3, -2, -1, 0, 1, 2, 3, 8, 20]))
+        elif k < 0.84:
+            ops.append('nlc')
+        elif k < 0.92:
+            ops.append('drop')
+        elif k < 0.95:
+            ops.append('sfs:%d' % max(0, tot + rng.choice([-5, -1, 0, 0, 0])))
+        elif k < 0.98:
+            ops.append('sdlcs:%d' % rng.randrange(1, 65))
+        else:
+            ops.append('sbs:%d' % rng.choice([1, 8, 64, 1000]))
+    return ops
+
+
+def gen_qseq(rng, maxlen):
+    ops = ['new']
+    if rng.random() < 0.8:
+        ops.append('sbs:%d' % rng.randrange(1, 4))
+    n = rng.randrange(2, maxlen + 1)
+    nid = 1
+    for _ in range(n):
+        k = rng.random()
+        if k < 0.42:
+            ops.append('w:%d' % nid)
+            nid += 1
+        elif k < 0.84:
+            ops.append('r')
+        elif k < 0.90:
+            ops.append('sfs:%d' % rng.randrange(0, nid + 2))
+        elif k < 0.94:
+            ops.append('abort')
+        else:
+            ops.append('sbs:%d' % rng.randrange(1, 5))
+    return ops
+
+
+def monitor_corr(pipe, res, kind, nseq, maxlen):
+    """kind 'u' or 'q'.  -> list of (ops actually executed, impl answers)"""
+    tr = pipe.regenerate()
+    a, f = lib.build_lib('san', lib.SAN)
+    if a is None:
+        res.oblige('D:build-lib', False, str(f)[:1500])
+        return []
+    exe, f = lib.build_exe('monitor_harness', [os.path.join(VERIF, 'harness', 'monitor_harness.cpp')], a, lib.SAN)
+    drv = lib.driver_exe()
+    if exe is None or not os.path.exists(drv):
+        res.oblige('D:build-monitor-harness', False, str(f)[:1500])
+        return []
+    rng = random.Random(lib.seed() * 6007 + (11 if kind == 'u' else 13))
+    seqs = [(gen_useq if kind == 'u' else gen_qseq)(rng, maxlen) for _ in range(nseq)]
+    corpus = os.path.join(VERIF, 'corpus', kind + 'seq.txt')
+    if os.path.exists(corpus):
+        seqs = [l.strip().split(';') for l in open(corpus) if l.strip() and not l.startswith('#')] + seqs
+    cmd = 'useq' if kind == 'u' else 'qseq'
+    mod, rc, err = lib.session(drv, ['%s %s' % (cmd, ';'.join(sq)) for sq in seqs])
+    if len(mod) != len(seqs):
+        res.oblige('D:driver-session', False, '%d answers for %d sequences' % (len(mod), len(seqs)))
+        return []
+    sent = []
+    expect = []
+    executed = []
+    nprobe = 0
+    for sq, a in zip(seqs, mod):
+        parts = a[len(cmd) + 1:].split(' | ')
+        cut = len(sq)
+        ops2 = list(sq)
+        exp = list(parts)
+        risky = False
+        for j, pa in enumerate(parts):
+            if pa.endswith(' block'):
+                ops2 = sq[:j] + ['probe-' + sq[j]]
+                exp = parts[:j + 1]
+                nprobe += 1
+                break
+            if ' oob' in pa or ' hang' in pa:
+                ops2 = sq[:j]
+                exp = parts[:j]
+                res.corr.setdefault('model_flags_oob_or_hang', 0)
+                res.corr['model_flags_oob_or_hang'] += 1
+                break
+        sent.append('%s %s' % (cmd, ';'.join(ops2)))
+        expect.append(cmd + ' ' + ' | '.join(exp))
+        executed.append(ops2)
+    imp, rc, err = lib.psession(exe, sent, timeout=1800)
+    if len(imp) != len(sent):
+        res.oblige('D:harness-session', False, '%d answers for %d sequences; %s' % (len(imp), len(sent), err[-800:]))
+        return []
+    dis = 0
+    for r, e, b in zip(sent, expect, imp):
+        res.corr['requests'] += 1
+        if e != b:
+            dis += 1
+            if dis <= 10:
+                # first differing step
+                pe, pb = e.split(' | '), b.split(' | ')
+                k = next((i for i in range(min(len(pe), len(pb))) if pe[i] != pb[i]), min(len(pe), len(pb)))
+                res.violation('model-vs-implementation', '%s monitor: model and implementation differ at step %d' % (cmd, k),
+                              {'request': r, 'step': k, 'model': pe[k] if k < len(pe) else None, 'impl': pb[k] if k < len(pb) else None})
+    res.corr['disagreements'] = dis
+    res.corr['blocking_probes'] = nprobe
+    res.corr['distinct'] = len(set(sent))
+    res.corr['samples'] = [{'sequence': sent[i][:300], 'answer': imp[i][:300]} for i in range(min(3, len(sent)))]
+    res.oblige('D:%s-correspondence' % cmd, dis == 0, '%d disagreements' % dis)
+    return list(zip(executed, imp))
+
+
+def flat_oracle_u(ops, ans):
+    """the reference byte queue of the property -> failure description or None"""
+    parts = ans[5:].split(' | ')
+    data = bytearray()
+    g = 0
+    p = 0
+    fs = 2 ** 63 - 1
+    good = True
+    eof = False
+    low = 0            # positions below `low` may have been dropped after having been read
+    maxg = 0
+    for i, (op, pa) in enumerate(zip(ops, parts)):
+        if op.startswith('probe-') or not pa.startswith('u ok'):
+            break
+        a = op.split(':')
+        d = dict(x.split('=') for x in pa.split()[2:] if '=' in x)
+        if a[0] == 'w':
+            b = bytes.fromhex(a[1]) if len(a) > 1 else b''
+            data += b; p += len(b)
+            if p >= fs: fs = p
+        elif a[0] == 'wc':
+            b = bytes.fromhex(a[2]) if len(a) > 2 else b''
+            n = int(a[1])
+            data += b[:n] + bytes(max(0, n - len(b))); p += n
+        elif a[0] == 'r':
+            n = int(a[1])
+            if n + g > fs:
+                n = fs - g; good = False; eof = True
+            else:
+                good = True; eof = False
+            n = max(0, n)
+            want = bytes(data[g:g + n]) if g >= 0 else b''
+            got = bytes.fromhex(d.get('bytes', ''))
+            if g >= low and g >= 0:
+                if got != want:
+                    return 'step %d (%s): read returned %s, the byte queue holds %s at position %d' % (i, op, got.hex()[:60], want.hex()[:60], g)
+                g += len(want)
+            else:
+                g += len(got)
+            maxg = max(maxg, g)
+        elif a[0] == 'sk':
+            g = min(g + int(a[1]), fs)
+        elif a[0] == 'sfs':
+            fs = int(a[1])
+        elif a[0] == 'drop':
+            low = max(low, min(maxg, g))
+        tg = g if good else -1
+        tp = p if good else -1
+        if int(d['tg']) != tg or int(d['tp']) != tp or int(d['fs']) != fs or (d['good'] == '1') != good or (d['eof'] == '1') != eof:
+            return 'step %d (%s): observed tg=%s tp=%s fs=%s good=%s eof=%s, reference tg=%d tp=%d fs=%d good=%d eof=%d' % (
+                i, op, d['tg'], d['tp'], d['fs'], d['good'], d['eof'], tg, tp, fs, good, eof)
+    return None
+
+
+def check_C15(res):
+    pipe = Pipe(res)
+    pipe.regenerate()
+    res.checker_cmd = 'cd lean && lake build Blf.Props.C15 && lake env lean <#print axioms>'
+    pipe.lean(['Blf.Props.C15', 'blfdriver'], {'Blf.Props.C15': C15_THEOREMS})
+    nseq = 1500 if res.tier == 'quick' else 30000
+    runs = monitor_corr(pipe, res, 'u', nseq, 60)
+    res.corr['programs'] = 1
+    res.corr['rule'] = 'non-blocking operation sequences up to length 60 over {write bytes, write container, read, seekg, nextLogContainer, dropOldData, setFileSize, setDefaultLogContainerSize c in 1..64, setBufferSize}; an operation the model says blocks is issued on a helper thread and must be observed blocked; distinct = distinct sequences'
+    fails = {}
+    for ops, ans in runs:
+        v = flat_oracle_u(ops, ans)
+        if v:
+            kind = 'container-after-partial-write' if any(o.startswith('wc') for o in ops) else 'byte-queue-mismatch'
+            # minimise: shortest failing sequence of this kind
+            if kind not in fails or len(ops) < len(fails[kind][0]):
+                fails[kind] = (ops, v)
+    res.corr['reference_model_failures'] = {k: v[1] for k, v in fails.items()}
+    for kind, (ops, v) in fails.items():
+        res.violation('byte-queue', 'in-memory stream deviates from the reference byte queue: ' + v, {'class': 'UncompressedFile', 'failure': kind, 'sequence': ';'.join(ops), 'detail': v})
+    finish_codec(res)
+
+
+def check_C16(res):
+    pipe = Pipe(res)
+    pipe.regenerate()
+    res.checker_cmd = 'cd lean && lake build Blf.Props.C16 && lake env lean <#print axioms>'
+    pipe.lean(['Blf.Props.C16', 'blfdriver'], {'Blf.Props.C16': C16_THEOREMS})
+    nseq = 2000 if res.tier == 'quick' else 40000
+    runs = monitor_corr(pipe, res, 'q', nseq, 40)
+    res.corr['programs'] = 1
+    res.corr['rule'] = 'single-threaded operation sequences up to length 40 over {write, read, setFileSize, setBufferSize, abort} with capacities 1..4; an operation the model says blocks is issued on a helper thread and must be observed blocked'
+    # property oracle on the implementation: FIFO, exactly once, null only when empty
+    for ops, ans in runs:
+        parts = ans[5:].split(' | ')
+        pending = []
+        aborted = False
+        for op, pa in zip(ops, parts):
+            if not pa.startswith('q ok'):
+                break
+            a = op.split(':')
+            if a[0] == 'w':
+                pending.append(a[1])
+            elif a[0] == 'abort':
+                aborted = True
+            elif a[0] == 'r':
+                d = dict(x.split('=') for x in pa.split()[2:] if '=' in x)
+                if d.get('ret') == 'null':
+                    if pending:
+                        res.violation('fifo', 'read returned null while %d objects remained' % len(pending), {'class': 'ObjectQueue', 'failure': 'null-while-nonempty', 'sequence': ';'.join(ops)})
+                        break
+                else:
+                    if not pending or pending[0] != d.get('ret'):
+                        res.violation('fifo', 'read returned %s, expected %s' % (d.get('ret'), pending[:1]), {'class': 'ObjectQueue', 'failure': 'order', 'sequence': ';'.join(ops)})
+                        break
+                    pending.pop(0)
+    finish_codec(res)
+
+
+C15_THEOREMS = []
+C16_THEOREMS = ['Blf.Props.C16_fifo', 'Blf.Props.C16_backpressure', 'Blf.Props.C16_eos', 'Blf.Props.C16_abort_releases', 'Blf.Props.C16_positions']
+
+
 def finish_codec(res):
     def kfilter(v, kf):
         pl = v.get('payload', {})
@@ -835,7 +1076,7 @@ def finish_codec(res):
     sys.exit(finish(res, kfilter))
 
 
-PROPS = {'C03': check_C03, 'C02': check_C02, 'C17': check_C17, 'C14': check_C14}
+PROPS = {'C03': check_C03, 'C02': check_C02, 'C17': check_C17, 'C14': check_C14, 'C15': check_C15, 'C16': check_C16}
 
 
 def main():
